@@ -11,6 +11,24 @@ sys.path.insert(0, HERE)
 
 # id -> (technique, level text, level note, design ref)
 CLAIMS = {
+    "C10": (
+        "AST well-formedness obligations at every node construction site (grammar from the interpreter's ast docstrings + frozen validator table) with reaching definitions; exception-funnel handler analysis",
+        "Decides, over all ~180 AST construction sites of the compiler, the necessary conditions for Python's compile() to accept the result: every required field supplied (O0), no required expression field fed from a possibly-None Result.expr (O1), statement lists the validator requires non-empty are provably non-empty (O2), names from user symbols pass the constant-name guard and assignment targets have an accepted kind (O3); and that errors leave only as HyLanguageError subclasses (handler order in HyASTCompiler.compile, NoParseError conversion, MacroExceptions). Decides these site obligations, not validity of every concrete output.",
+        "Sites whose list is filled by append() in a loop, or whose class is chosen at run time beyond the recognised idioms, are listed as unresolved, not as violations. Errors raised later by Python's own compiler as SyntaxError are allowed by the property.",
+        "4/C10",
+    ),
+    "C12": (
+        "identifier-provenance dataflow at every identifier-typed AST field + template parsing + counter ownership search",
+        "Decides that every identifier the compiler writes that does not derive from the user's program is reserved (`hy`, `_hy_…`) or on a reasoned allow-list, that reserved binding names are fresh (come from get_anon_var; no `_hy_` literal, no reuse of an earlier let name), that asty.parse templates introduce only reserved names, and that the counter has exactly two writers. Dynamic clobbering through Result.rename is decided under C01/C02/C08/C09 (R-TEMP).",
+        "Provenance is flow-sensitive within a function (reaching definitions) and follows calls within hy/ by name; unresolved sinks are counted and bounded.",
+        "4/C12",
+    ),
+    "C34": (
+        "identifier-provenance dataflow (MANGLED / RESERVED / COPY / RAW) at every identifier-typed AST field and at the non-AST name sites",
+        "Decides at all 57 identifier sinks of the compiler, the two later stores in Result.rename and seven run-time name sites (install_macro, macroexpand, require, local_macro_name, Keyword.__call__, ScopeLet.add, get_c_op) that user-derived text reaches an identifier only through mangle(): a necessary condition for 'a Hy name means (hy.mangle s) in every construct'. Equality of manglings of different names is value-level and not decided.",
+        "User-derivedness is inferred from pattern-macro parameters and model constructors; a sink the analysis cannot resolve is reported as unresolved (bounded), never as a violation.",
+        "4/C34",
+    ),
     "C28": (
         "pairing / typestate over the s-expression tree of hy-repr (try-finally protection of the printer call, write-ownership of the two globals)",
         "Decides that hy-repr's quoting flag and cycle set are restored on every exit: the only call that runs arbitrary code after the state is modified is inside a try whose finally undoes both writes; the cycle test precedes the add; nested calls cannot claim the flag; no other function writes either global. This is the crash-point quantifier of the property decided over all exits at once; textual output equality is not decided.",
